@@ -97,6 +97,16 @@ def run(ck):
                             same = True
                     ck.ob("DEFUSE", p, "hash-of-same-node#%d" % k, same, "the cached hash is hash() of the very value it is stored with", f.loc(bi))
     ck.floor("DEFUSE", "Hashed constructions in the trie", n, 6)
+    # deleting a key detaches the value from its node (otherwise path compression is skipped and the shape is not canonical)
+    f = getfn(ck, "sc", E, LL + "MutableTrie::delete")
+    if f:
+        tomb = [(bi, t) for (bi, t) in f.calls(r"std::mem::replace$") if any(a[0] == "agg" and a[1].endswith("Entry::Deleted") for a in f.origins(t["args"][1], deep=True))]
+        det = [(bi, t) for (bi, t) in f.calls(r"std::mem::take$|Option::<T>::take$") if ("field", "value") in f.origins(t["args"][0])]
+        clears = [bi for bi in f.reachable() for s2 in f.stmts(bi) if "lhs" in s2 and s2["lhs"][1] and s2["lhs"][1][-1].endswith(":value") and
+                  (s2["rv"].get("variant") == "None" or any(a[0] == "agg" and a[1].endswith("Option::None") for a in (f.origins(s2["rv"]["a"]) if s2["rv"]["k"] == "use" else [])))]
+        ok = bool(tomb) and all(any(f.dominates(db, tb) for (db, _) in det) or any(f.dominates(cb, tb) or f.dominates(tb, cb) for cb in clears) for (tb, _) in tomb)
+        ck.ob("DOM", f.path, "value-detached-when-deleted", ok, "the node's value pointer is taken (mem::take) on the path that tombstones the entry: %d detach sites, %d tombstones" % (len(det) + len(clears), len(tomb)), f.loc())
+
     # single definition of node hashing
     hashers = [p for p in c.paths() if re.search(r"ToSHA256<Ctx>>::hash$", p) and "low_level::Node " in p]
     ck.ob("WHO", "Node::hash", "single-definition", len(hashers) == 1, "ToSHA256 implementations for Node: %d" % len(hashers), "")
